@@ -27,7 +27,9 @@ PROPS = {
     "C02": sim("C02", 1000, 30000),
     "C03": sim("C03", 1500, 40000),
     "C04": sim("C04", 800, 20000),
+    "C05": sim("C05", 600, 20000),
     "C07": sim("C07", 1000, 30000),
+    "C17": sim("C17", 800, 20000),
     "C12": {
         "test": "TestC12", "corpus_test": "TestCorpusC12", "level": "fault_enumeration",
         "engine": "E-STORE",
@@ -53,6 +55,8 @@ MANIFEST_TEXT = {
     "C02": simtext("Same simulator with election-centred patterns (scheduler-owned delivery of every vote message, duelling candidates, flaky links, crashes at term/vote writes); per-term uniqueness of leaders is checked on Status() at every quiescence point and on every AppendEntries/InstallSnapshot request sent."),
     "C03": simtext("Concurrent generated clients against the simulator; the invoke/return history is checked against the authoritative applied order (bytes, position, result, at-most-once, real-time order). Exploration of histories, not a proof of linearizability for all histories."),
     "C04": simtext("Schedules with kills immediately before/after generated storage operations, all-node crashes and majority-only restarts; at every first application and acknowledgement each voter's on-disk log (crash image for dead nodes) is read back through the real constructors and a strict majority must hold the entry; recovered logs must equal what was stored."),
+    "C05": simtext("Schedules with unbounded message delay built around a deposed-but-unaware leader (hold-partitions, old replies released first, leader left with non-voters, reads at freshly elected leaders after whole-cluster restarts, slow state machines) with concurrent writers and linearizable readers; a successful read must reflect every write acknowledged before its invocation (recorder order) and reads must not go backwards."),
+    "C17": simtext("Bounded-delay network (each message delivered within a drawn D or lost; LD + D < ET), perfect virtual clocks; lease-based reads at any node at any instant under partitions and leader changes; staleness oracle of C05 plus the necessary condition that a voting member answered the serving node within the preceding lease duration."),
     "C07": simtext("Schedules biased to elections between differing logs; at the first sign of leadership of each (node, term) the node's stored log is compared with the set of entries ever observed committed or applied; truncations of committed entries are flagged at any time."),
     "C12": {
         "technique": "model-based property test (rapid state machine) with crash-image enumeration",
